@@ -20,6 +20,7 @@ import ast
 
 from .. import ctx
 from .. import paths
+from ..pattern import match
 from ..fnview import FnView
 from ..project import AnalysisError, call_name, kwarg, norm, walk_no_nested
 from ..roles import MarshalRoles
@@ -69,11 +70,36 @@ def check(run, project):
         pe = r.data["kwargs"].get("parameter_encryption")
         want1 = ("ornone", ("penc", (("for_response", ("const", True)),), (cmd_obj,)))
         want2 = ("ornone", ("penc", (("command", cmd_obj), ("for_response", ("const", True))), ()))
-        run.ob("S2", pe in (want1, want2), "response expects an encrypted first parameter iff that command's sessions request it",
+        ok_pe = pe in (want1, want2)
+        if not ok_pe:
+            # the same value spelled as a branch: `flag = None; if is_parameter_encryption(cmd, for_response=True): flag = True`
+            for key, val in tr.decisions.items():
+                try:
+                    v = sp.ev(ast.parse(key, mode="eval").body, tr)
+                except Exception:
+                    continue
+                if v in (want1[1], want2[1]):
+                    ok_pe = (pe == ("const", True)) if val else (pe in (("const", None), None))
+        run.ob("S2", ok_pe, "response expects an encrypted first parameter iff that command's sessions request it",
                f"parameter_encryption is `{render(pe)}`", module=mod, node=r.node, func=fn.name, construct="stream parameter_encryption")
         run.ob("S1", c.data["kwargs"].get("command_code") in (None, ("const", None)), "the command decode gets no command code",
                f"command decode gets {render(c.data['kwargs'].get('command_code'))}", module=mod, node=c.node, func=fn.name,
                construct="stream command kwargs")
+    # S2 (continued): nothing the response decode is given may be carried over from an earlier iteration - every local of
+    # the loop that flows into its arguments is (re)bound in this iteration on every path before the call
+    if loops:
+        SS = paths.Summariser(mod, fn)
+        written = {n.id for n in ast.walk(loops[0]) if isinstance(n, ast.Name) and isinstance(n.ctx, (ast.Store, ast.Del))}
+        for tp in SS.paths():
+            for bp in tp.loops.get(id(loops[0]), []):
+                for k_, e_, n_ in bp.effects:
+                    if k_ == "yieldfrom" and isinstance(e_, ast.Call) and call_name(e_) == d and e_.args and norm(e_.args[0]) == "Response":
+                        stale = sorted({x.id for kw in e_.keywords for x in ast.walk(kw.value) if isinstance(x, ast.Name)} & written)
+                        lab = " & ".join(("" if v else "not ") + a[:60] for a, v, _ in bp.cond) or "always"
+                        run.ob("S2", not stale, f"response arguments are computed in this iteration [{lab}]",
+                               f"on the path [{lab}] the response decode receives {stale} as left by an EARLIER iteration of the stream "
+                               "loop (not re-bound before the call): a flag set for one command/response pair sticks to the following pairs",
+                               module=mod, node=n_, func=fn.name, construct="stream parameter_encryption")
     s3(run, roles, L)
     s5(run, project)
     # S6: a stream ends silently only at a message boundary (so the stream's events are the concatenation of the
@@ -99,110 +125,68 @@ def s3(run, roles, L):
     run.ob("S3", "encrypt" in masks and "decrypt" in masks and masks.get("encrypt") != masks.get("decrypt"),
            "TPMA_SESSION has distinct encrypt / decrypt bits", f"masks: {masks}", module=sess.module if sess else mod,
            node=sess.node if sess else fn, func="TPMA_SESSION", construct="TPMA_SESSION encrypt/decrypt")
-    V = FnView(mod, fn)
-    allowed = {p_area, f"{p_cmd}.authorizationArea"}
-
-    def sources(expr, at, depth=0):
-        if depth > 6:
-            return {"?"}
-        if isinstance(expr, ast.IfExp):
-            return sources(expr.body, at, depth + 1) | sources(expr.orelse, at, depth + 1)
-        if isinstance(expr, ast.Name):
-            out = set()
-            for r in V.defs_at(at, expr.id):
-                if r[0] == "param":
-                    out.add(expr.id)
-                elif r[0] == "expr":
-                    out |= sources(r[1], at, depth + 1)
-                else:
-                    out.add("?")
-            return out or {"?"}
-        return {norm(expr)}
-
-    tests = [n for n in V.cfg.nodes if n.kind == "test" and norm(n.ast) in (p_resp, f"not {p_resp}")]
-    run.ob("S3", len(tests) == 1, "the direction is decided by one test of for_response", f"{len(tests)} tests of `{p_resp}`",
-           module=mod, node=fn, func=fn.name, construct="for_response test")
-    if len(tests) != 1:
-        return
-    t = tests[0]
-    neg = norm(t.ast).startswith("not ")
-    resp_succ = [s_ for lab, s_ in t.succ if lab == ("false" if neg else "true")]
-    from_resp = set()
-    stack = list(resp_succ)
-    while stack:
-        n = stack.pop()
-        if n.id in from_resp:
-            continue
-        from_resp.add(n.id)
-        stack.extend(x for _, x in n.succ)
-    cmd_succ = [s_ for lab, s_ in t.succ if lab == ("true" if neg else "false")]
-    from_cmd = set()
-    stack = list(cmd_succ)
-    while stack:
-        n = stack.pop()
-        if n.id in from_cmd:
-            continue
-        from_cmd.add(n.id)
-        stack.extend(x for _, x in n.succ)
-    found = {}
-    for r in [x for x in walk_no_nested(fn) if isinstance(x, ast.Return) and isinstance(x.value, ast.Call) and call_name(x.value) == "any"
-              and x.value.args and isinstance(x.value.args[0], ast.GeneratorExp)]:
-        g = x_g = r.value.args[0]
-        gen = g.generators[0]
-        tv = norm(gen.target)
-        elt = g.elt
-        okshape = isinstance(elt, ast.Attribute) and isinstance(elt.value, ast.Attribute) and elt.value.attr == "sessionAttributes" \
-            and norm(elt.value.value) == tv and len(g.generators) == 1 and not gen.ifs
-        bit = elt.attr if isinstance(elt, ast.Attribute) else None
-        src = sources(gen.iter, r)
-        node = V.node_of(r)
-        side = "response" if node.id in from_resp and node.id not in from_cmd else "command" if node.id in from_cmd and node.id not in from_resp else "both"
-        found[side] = (bit, r)
-        run.ob("S3", okshape, f"{side} direction: any(<session>.sessionAttributes.{bit}) over every session",
-               f"`{norm(r.value)[:90]}` is not `any(s.sessionAttributes.<bit> for s in <area>)` over all sessions", module=mod, node=r,
-               func=fn.name, construct=f"is_parameter_encryption [{side}] shape")
-        run.ob("S3", src <= allowed and bool(src), f"{side} direction: iterates the given session area",
-               f"iterates `{norm(gen.iter)}` which comes from {sorted(src)}, not from the command's / the given session area", module=mod,
-               node=r, func=fn.name, construct=f"is_parameter_encryption [{side}] area")
-    # every other return: the constant False (nothing requested) or a delegation to itself that keeps the direction
-    for r in [x for x in walk_no_nested(fn) if isinstance(x, ast.Return)]:
-        v = r.value
-        if isinstance(v, ast.Call) and call_name(v) == "any":
+    # decided on the path summaries: what is returned as a function of (command given?, area absent?, direction)
+    S = paths.Summariser(mod, fn)
+    ps = [p for p in S.paths() if not (p.end == "raise" and p.value is not None and norm(p.value) == "AssertionError")]
+    run.require(len(ps) >= 4, "C09: paths of is_parameter_encryption not found")
+    RESP = f"truthy {p_resp}"
+    n_any = {"encrypt": 0, "decrypt": 0}
+    for p in ps:
+        lab = " & ".join(("" if v else "not ") + a for a, v, _ in p.cond) or "always"
+        # which session area this path looks at
+        cmd_none = p.truth(f"{p_cmd} is None")
+        area = p_area if cmd_none is True else f"{p_cmd}.authorizationArea" if cmd_none is False else None
+        v = p.value
+        if p.end != "return" or v is None:
+            run.ob("S3", False, f"is_parameter_encryption [{lab}]", f"the path ends with `{p.end}`", module=mod, node=p.node or fn,
+                   func=fn.name, construct="is_parameter_encryption other return")
             continue
         if isinstance(v, ast.Constant) and v.value is False:
-            run.ob("S3", True, f"return False at L{r.lineno}")
+            absent = [a for a, t, _ in p.cond if t and a.endswith(" is None") and a[: -len(" is None")] in (p_area, f"{p_cmd}.authorizationArea")]
+            run.ob("S3", bool(absent), f"return False [{lab}]: only for an absent session area",
+                   f"False is returned on the path [{lab}] although a session area is present", module=mod, node=p.node or fn,
+                   func=fn.name, construct="is_parameter_encryption [no sessions]")
             continue
         if isinstance(v, ast.Call) and call_name(v) == fn.name:
             k = kwarg(v, p_resp)
-            ok = k is not None and norm(k) == p_resp
-            run.ob("S3", ok, f"self-delegation at L{r.lineno} keeps the direction",
-                   f"`{norm(v)[:90]}` delegates to itself {'without' if k is None else 'with a different'} `{p_resp}`: the response direction "
-                   "falls back to the command direction (decrypt instead of encrypt)", module=mod, node=r, func=fn.name,
-                   construct="is_parameter_encryption self-delegation")
+            ok = k is not None and paths.text(k) == p_resp
+            run.ob("S3", ok, f"self-delegation [{lab}] keeps the direction",
+                   f"`{paths.text(v)[:90]}` delegates to itself {'without' if k is None else 'with a different'} `{p_resp}`: the response "
+                   "direction falls back to the command direction (decrypt instead of encrypt)", module=mod, node=p.node or fn,
+                   func=fn.name, construct="is_parameter_encryption self-delegation")
             continue
-        run.ob("S3", False, f"return at L{r.lineno}", f"`{norm(r)[:90]}` is neither the session test, nor False, nor a direction-preserving "
-               "delegation", module=mod, node=r, func=fn.name, construct="is_parameter_encryption other return")
-    want = {"response": "encrypt", "command": "decrypt"}
-    for side, bit in want.items():
-        got = found.get(side, (None, fn))
-        run.ob("S3", got[0] == bit, f"{'responses' if side == 'response' else 'commands'}: the `{bit}` attribute decides",
-               f"for {side}s the decoder consults `{got[0]}`; TPM 2.0 parameter encryption uses `{bit}` for the {side} direction", module=mod,
-               node=got[1], func=fn.name, construct=f"is_parameter_encryption [{side}s]")
-    run.ob("S3", "both" not in found, "each direction has its own return", "an any(...) return is shared by both directions", module=mod,
-           node=fn, func=fn.name, construct="is_parameter_encryption directions")
-    # an absent session area requests nothing: some `<area> is None` test returning False dominates both returns
-    nones = [n for n in V.cfg.nodes if n.kind == "test" and isinstance(n.ast, ast.Compare) and isinstance(n.ast.ops[0], ast.Is)
-             and isinstance(n.ast.comparators[0], ast.Constant) and n.ast.comparators[0].value is None
-             and (sources(n.ast.left, n.ast) & allowed)]
-    ok = False
-    for n in nones:
-        iff = n.label
-        if isinstance(iff, ast.If) and any(isinstance(x, ast.Return) and isinstance(x.value, ast.Constant) and x.value.value is False for x in iff.body):
-            if all(n.id in V.dom[V.node_of(r).id] for _, r in found.values()):
-                ok = True
-    run.ob("S3", ok, "no session area -> no encryption (tested before the sessions are iterated)",
-           "a None session area is not answered with False before it is iterated", module=mod, node=fn, func=fn.name,
-           construct="is_parameter_encryption [no sessions]")
+        m = match(paths.flatten(v), "any((M_s.sessionAttributes.M_bit for M_s in M_area))")
+        m2 = None
+        for bit in ("encrypt", "decrypt"):
+            mm = match(paths.flatten(v), f"any((M_s.sessionAttributes.{bit} for M_s in M_area))")
+            if mm is not None:
+                m2 = (bit, mm)
+        if m2 is None:
+            run.ob("S3", False, f"is_parameter_encryption [{lab}]", f"`{paths.text(v)[:90]}` is not `any(s.sessionAttributes.<bit> for s in "
+                   "<area>)` over all sessions, nor False, nor a direction-preserving delegation", module=mod, node=p.node or fn,
+                   func=fn.name, construct="is_parameter_encryption other return")
+            continue
+        bit, mm = m2
+        n_any[bit] += 1
+        side = p.truth(RESP)
+        want = "encrypt" if side else "decrypt"
+        run.ob("S3", side is not None and bit == want,
+               f"{'responses' if side else 'commands'} [{lab}]: the `{want}` attribute decides",
+               f"on the path [{lab}] the decoder consults `{bit}`; TPM 2.0 parameter encryption uses `encrypt` for the response direction "
+               f"and `decrypt` for the command direction" + ("" if side is not None else " (the direction is not tested on this path)"),
+               module=mod, node=p.node or fn, func=fn.name,
+               construct=f"is_parameter_encryption [{'responses' if side else 'commands'}]")
+        got_area = paths.text(mm["M_area"])
+        run.ob("S3", area is not None and got_area == area, f"[{lab}]: iterates the given session area ({area})",
+               f"iterates `{got_area}`, not the command's / the given session area ({area})", module=mod, node=p.node or fn,
+               func=fn.name, construct="is_parameter_encryption area")
+        none_known = p.truth(f"{got_area} is None") is False
+        run.ob("S3", none_known, "no session area -> no encryption (tested before the sessions are iterated)",
+               "a None session area is not answered with False before it is iterated", module=mod, node=p.node or fn, func=fn.name,
+               construct="is_parameter_encryption [no sessions]")
+    run.ob("S3", n_any["encrypt"] >= 1 and n_any["decrypt"] >= 1, "both directions are decided",
+           f"paths consulting encrypt: {n_any['encrypt']}, decrypt: {n_any['decrypt']}", module=mod, node=fn, func=fn.name,
+           construct="is_parameter_encryption directions")
     d = dict(zip(params[len(params) - len(fn.args.defaults):], fn.args.defaults))
     run.ob("S3", p_resp in d and isinstance(d[p_resp], ast.Constant) and d[p_resp].value is False,
            "default direction is command", "for_response default changed", module=mod, node=fn, func=fn.name,
